@@ -47,7 +47,8 @@ class RefProto:
 
 class RefLink:
     def __init__(self, ref: RefPeer, opts: Optional[Dict[str, Any]] = None,
-                 h: Optional[Harness] = None, wait: str = 'auth'):
+                 h: Optional[Harness] = None, wait: str = 'auth',
+                 reverse: bool = False):
         self.h = h or Harness()
         self.ref = ref
         self.rp = RefProto(ref)
@@ -81,10 +82,30 @@ class RefLink:
             self.side, self.ref_side = 'c', 's'
             self.options = asyncssh.SSHClientConnectionOptions(
                 **memwire.default_client_options(**opts))
-            self.options.waiter = loop.create_future()
-            self.ready = self.options.waiter
-            self.conn = asyncssh.SSHClientConnection(loop, self.options,
-                                                     wait=wait)
+
+            if reverse:
+                # a reverse-direction client (asyncssh.listen_reverse): the
+                # connection object is handed to an acceptor once it is
+                # authenticated, nobody waits on it
+                self.ready = loop.create_future()
+
+                def _cacceptor(conn):
+                    if not self.ready.done():
+                        self.ready.set_result(conn)
+
+                def _cerr(conn, exc):
+                    if not self.ready.done():
+                        self.ready.set_exception(
+                            exc or asyncssh.ConnectionLost('closed'))
+                        self.ready.exception()
+
+                self.conn = asyncssh.SSHClientConnection(
+                    loop, self.options, _cacceptor, _cerr)
+            else:
+                self.options.waiter = loop.create_future()
+                self.ready = self.options.waiter
+                self.conn = asyncssh.SSHClientConnection(loop, self.options,
+                                                         wait=wait)
 
     def start(self) -> None:
         h = self.h
